@@ -77,7 +77,7 @@ build_one() {
   local objs=()
   if needs_repo_objs "$engine"; then
     for tu in "${REPO_TUS[@]}"; do
-      if [ "$tu" = "bloch/cli/cli.cpp" ] && [ "$engine" != "clirun" ]; then continue; fi
+      if [ "$tu" = "bloch/cli/cli.cpp" ] && [ "$engine" != "clirun" ] && [ "$engine" != "qhist" ]; then continue; fi
       objs+=("$dir/$(echo "$tu" | tr '/' '_' | sed 's/\.cpp$/.o/')")
     done
     (
@@ -107,7 +107,7 @@ build_one() {
     fi
   ) 9>"$dir/.lock.$engine"
   # prune old cache entries of this flavour (keep newest two)
-  ls -1dt "$VERIF"/build/"$flavour"-* 2>/dev/null | tail -n +3 | xargs -r rm -rf
+  ls -1dt "$VERIF"/build/"$flavour"-* 2>/dev/null | tail -n +5 | xargs -r rm -rf
   echo "$bin"
 }
 
